@@ -70,6 +70,7 @@ type DOp struct {
 //	sigasdone R / errasdone R    a work-done frame carrying a signal / error payload (type flip)
 //	doneassig R X / doneaserr R X  a signal / error frame carrying a work-done payload
 //	done1 X      ATP v1 bare work-done
+//	sleep N      do nothing for N milliseconds (a step that takes its time)
 //	garbage      malformed bytes
 //	eof          end the server-to-client stream
 type SOp struct {
